@@ -232,6 +232,7 @@ pub fn run_scenario(job: &Value) -> Value {
         }
     }
     // end: cancel everything that is still running, then wait for the top-level threads
+    let horizon = ctx.us();
     let mut started = std::mem::take(&mut *env.started.lock().unwrap());
     let names = env.names.lock().unwrap().clone();
     errors.extend(env.errors.lock().unwrap().iter().cloned());
@@ -285,6 +286,7 @@ pub fn run_scenario(job: &Value) -> Value {
         "panics": panics, "other_panics": other_panics, "stalls": stalls, "errors": errors,
         "finals": Value::Object(finals),
         "gate_timeouts": *ctx.gate_timeouts.lock().unwrap(),
+        "horizon": horizon,
     })
 }
 
